@@ -56,10 +56,10 @@ __xml_namespace__ = "https://example.invalid/verif"
 
 CLASS = '''
 {decorators}class Something({bases}):
-    """Represent something."""
+    """{class_doc}"""
 
     text: {annotation}
-    """Text"""
+    """{prop_doc}"""
 
     count: Optional[int]
     """Count"""
@@ -119,9 +119,40 @@ FUNCTIONS = [
 ]
 
 
+DOC_POSITIONS = ["class", "property", "meta-model", "enumeration", "constant"]
+_TARGETS = ["Base_text", "Missing", "~Base_text", ".Base_text", "", "Base_text<x>", "text <Base_text>", "Base_text y", "text", "~text",
+            "Base_text.text", "Something.text", "Something.missing", "Missing.text", ".text", "Something.", "a.b.c", "Something.text!",
+            "Some_enum.Some_literal", "Some_enum.Missing", "Small_set", "Small_set y", "AASd-001", "1"]
+DOC_FORMS = (
+    ["Represent :%s:`%s`." % (role, target) for role in ("class", "attr", "const", "paramref", "constraintref", "unknown")
+     for target in _TARGETS] +
+    ["Represent `x`.", "Represent ``x``.", "Represent *x*.", "Represent **x**.", "Represent |x|.", "Represent x_.", "Represent `x`_.",
+     "Represent [1]_.", "Represent [#]_.", "Represent `x`__.", "Represent x__.",
+     "Represent.\n\n    .. note::\n\n        Note.", "Represent.\n\n    .. unknown::\n\n        Note.", "Represent.\n\n    .. image:: x.png",
+     "Represent.\n\n    .. note::", "Represent.\n\n    .. note:: inline",
+     "Represent.\n\n    * a\n    * b", "Represent.\n\n    1. a\n    2. b",
+     "Represent.\n\n    :constraint AASd-001:\n        Text.",
+     "Represent.\n\n    :constraint AASd-001:\n        Text.\n\n    :constraint AASd-001:\n        Text.",
+     "Represent.\n\n    :constraint:\n        Text.", "Represent.\n\n    :constraint AASd-001", "Represent.\n\n    :constraint AASd-001:",
+     "Represent.\n\n    :constraint AASd-001:\n        :constraintref:`AASd-001` and :constraintref:`AASd-002`",
+     "Represent.\n\n    :param x: X", "Represent.\n\n    :param text: X", "Represent.\n\n    :returns: X", "Represent.\n\n    :unknownfield: X",
+     "Represent.\n\n    Title\n    =====\n\n    Text.", "Represent.\n\n    +---+\n    | a |\n    +---+", "Represent.\n\n    ::\n\n        code",
+     "Represent.\n\n    >>> 1", "Represent.\n\n    .. code-block:: python\n\n        x = 1", "Represent.\n\n    term\n        definition",
+     "Represent.\n\n    .. [1] footnote", "Represent.\n\n    .. _target:", "Represent.\n\n    .. |sub| replace:: x", "Represent.\n\n    .. comment",
+     "", " ", "\n", "x", "Represent :class:`Base_text` :class:`Base_text`.", "Represent :class:`Base_text`:class:`Base_text`.",
+     ":class:`Base_text`", "*", "**", "`", "``", "|", "_", "Represent.\n\n    :class:`Base_text`", "Represent.\n\n  odd indent\n      more",
+     "Represent.\n\tTab.", "Represent http://example.com.", "Represent <b>x</b>.", "Represent &amp;.",
+     "Represent :ref:`x`.", "Represent :math:`x`.", "Represent :sub:`x`.", "Represent :sup:`x`.", "Represent :emphasis:`x`.",
+     "Represent :strong:`x`.", "Represent :literal:`x`.", "Represent :code:`x`.", "Represent :title:`x`.", "Represent :pep:`8`.",
+     "Represent :rfc:`822`.", "Represent :raw:`x`.", "Represent :class:`Base_text", "Represent :class:Base_text`.",
+     "Represent \u00e4\u2028\U0001F600."])
+
+
 def build_text(kind: int, picks: List[int], n: int) -> str:
     """One member of the family: ``kind`` selects the construct, ``n`` the number of arguments, ``picks`` the arguments."""
-    cls = dict(decorators="", bases="DBC", annotation="str", ctor_extra="", default="None")
+    cls = dict(decorators="", bases="DBC", annotation="str", ctor_extra="", default="None", class_doc="Represent something.",
+               prop_doc="Text")
+    head = HEAD
     extra = ""
     if kind == 0:
         args = ", ".join(SET_ARGS[picks[i] % len(SET_ARGS)] for i in range(n))
@@ -149,9 +180,27 @@ def build_text(kind: int, picks: List[int], n: int) -> str:
     elif kind == 7:
         extra = FUNCTIONS[picks[0] % len(FUNCTIONS)]
         cls["decorators"] = '@invariant(lambda self: check(self.text), "Text is checked")\n'
+    elif kind == 8:
+        doc = DOC_FORMS[picks[0] % len(DOC_FORMS)]
+        position = DOC_POSITIONS[picks[1] % len(DOC_POSITIONS)]
+        if position == "class":
+            cls["class_doc"] = doc
+        elif position == "property":
+            cls["prop_doc"] = doc
+        elif position == "meta-model":
+            assert head.startswith('"""Meta-model for verification."""')
+            head = '"""' + doc + '"""' + head[len('"""Meta-model for verification."""'):]
+        elif position == "enumeration":
+            assert '"""Represent an enumeration."""' in head
+            head = head.replace('"""Represent an enumeration."""', '"""' + doc + '"""')
+        elif position == "constant":
+            assert 'description="A small set."' in head
+            head = head.replace('description="A small set."', "description=" + repr(doc))
+        else:
+            raise AssertionError(position)
     else:
         raise AssertionError(kind)
-    return HEAD + extra + CLASS.format(**cls) + TAIL
+    return head + extra + CLASS.format(**cls) + TAIL
 
 
 def load(text: str) -> Tuple[str, str]:
@@ -173,18 +222,18 @@ def load(text: str) -> Tuple[str, str]:
     return "ok", ""
 
 
-def check_family(kind: Any, n: Any, picks: List[Any], fixed_kind: int, max_n: int) -> str:
+def check_family(kind: Any, n: Any, picks: List[Any], fixed_kind: int, max_n: int, p0_range: Optional[List[int]] = None) -> str:
     assume(kind == fixed_kind)
     assume(0 <= n <= max_n)
     concrete_picks: List[int] = []
     sizes = {0: len(SET_ARGS), 1: len(CONST_ARGS), 2: len(INVARIANT_ARGS), 3: len(SERIALIZATION_ARGS), 4: len(ANNOTATIONS),
-             5: len(DEFAULTS), 6: len(BASES), 7: len(FUNCTIONS)}[fixed_kind]
+             5: len(DEFAULTS), 6: len(BASES), 7: len(FUNCTIONS), 8: len(DOC_FORMS)}[fixed_kind]
     n_concrete = 0
     for k in range(max_n + 1):
         if n == k:
             n_concrete = k
     for i, p in enumerate(picks):
-        used = i < n_concrete or (fixed_kind in (1, 3) and i >= 4) or (fixed_kind in (4, 6, 7) and i == 0) or (fixed_kind == 5 and i <= 1)
+        used = i < n_concrete or (fixed_kind in (1, 3) and i >= 4) or (fixed_kind in (4, 6, 7) and i == 0) or (fixed_kind in (5, 8) and i <= 1)
         if not used:
             assume(p == 0)
             concrete_picks.append(0)
@@ -192,11 +241,17 @@ def check_family(kind: Any, n: Any, picks: List[Any], fixed_kind: int, max_n: in
         bound = sizes if not (fixed_kind in (1, 3) and i >= 4) else 8
         if fixed_kind == 5 and i == 1:
             bound = len(CTOR_EXTRAS)
-        assume(0 <= p < bound)
-        chosen = 0
-        for v in range(bound):
+        if fixed_kind == 8 and i == 1:
+            bound = len(DOC_POSITIONS)
+        lo = 0
+        if i == 0 and p0_range is not None:
+            lo, bound = p0_range[0], min(bound, p0_range[1])
+        assume(lo <= p < bound)
+        chosen = lo
+        for v in range(lo, bound):
             if p == v:
                 chosen = v
+                break
         concrete_picks.append(chosen)
     text = build_text(fixed_kind, concrete_picks, n_concrete)
     outcome, detail = untraced(load, text)
@@ -214,22 +269,28 @@ def make_harness(params: Dict[str, Any]):
             assume(n == fixed_n)
         if params.get("p0") is not None:
             assume(p0 == params["p0"])
-        return check_family(kind, n, [p0, p1, p2, p3, p4, p5], fixed_kind, max_n)
+        return check_family(kind, n, [p0, p1, p2, p3, p4, p5], fixed_kind, max_n, params.get("p0_range"))
 
     return harness
 
 
 KIND_NAMES = {0: "constant_set-arguments", 1: "constant_*-arguments", 2: "invariant-arguments", 3: "class-decorators",
-              4: "type-annotations", 5: "constructor-shapes", 6: "base-classes", 7: "verification-functions"}
+              4: "type-annotations", 5: "constructor-shapes", 6: "base-classes", 7: "verification-functions", 8: "descriptions"}
 
 
 def shards(tier: str) -> List[Dict[str, Any]]:
     out = []
-    plan = {0: 3, 1: 1, 2: 2, 3: 2, 4: 0, 5: 0, 6: 0, 7: 0} if tier == "quick" else {0: 4, 1: 3, 2: 3, 3: 3, 4: 0, 5: 0, 6: 0, 7: 0}
+    plan = {0: 3, 1: 1, 2: 2, 3: 2, 4: 0, 5: 0, 6: 0, 7: 0, 8: 0} if tier == "quick" else {0: 4, 1: 3, 2: 3, 3: 3, 4: 0, 5: 0, 6: 0, 7: 0, 8: 0}
     for kind, max_n in plan.items():
         sizes = {0: len(SET_ARGS), 1: len(CONST_ARGS), 2: len(INVARIANT_ARGS), 3: len(SERIALIZATION_ARGS)}
         for n in range(max_n + 1):
             firsts = [None] if (n < 2 or kind >= 4) else list(range(sizes[kind]))  # many combinations: one shard per first argument
+            if kind == 8:
+                for lo in range(0, len(DOC_FORMS), 24):
+                    out.append({"name": f"{KIND_NAMES[kind]},forms {lo}..{min(lo + 24, len(DOC_FORMS)) - 1}",
+                                "params": {"kind": kind, "max_n": max_n, "n": n, "p0": None, "p0_range": [lo, lo + 24]},
+                                "budget_s": 300 if tier == "quick" else 3000, "per_path_timeout": 120})
+                continue
             for p0 in firsts:
                 out.append({"name": f"{KIND_NAMES[kind]},n={n}" + (f",first-argument={p0}" if p0 is not None else ""),
                             "params": {"kind": kind, "max_n": max_n, "n": n, "p0": p0},
@@ -248,7 +309,8 @@ def describe(tier: str) -> Dict[str, Any]:
                   f"positional / keyword arguments drawn from {len(SET_ARGS)} / {len(CONST_ARGS)} argument forms, @invariant(...) with 0..2 (3) "
                   f"arguments from {len(INVARIANT_ARGS)} forms (incl. malformed any/all/range/len/match calls), class decorators, "
                   f"{len(ANNOTATIONS)} type annotations, {len(DEFAULTS)}x{len(CTOR_EXTRAS)} constructor shapes, {len(BASES)} base-class lists, "
-                  f"{len(FUNCTIONS)} verification-function bodies (incl. unparsable patterns); each text goes through the REAL "
+                  f"{len(FUNCTIONS)} verification-function bodies (incl. unparsable patterns), {len(DOC_FORMS)} description forms (every reference role "
+                  f"x {len(_TARGETS)} target spellings, reST constructs) at {len(DOC_POSITIONS)} positions; each text goes through the REAL "
                   "run.load_model: it must return a table or a non-empty report and never raise",
         "outside": "texts outside the family (arbitrary Python); syntactically invalid Python (ast.parse is trusted, the SyntaxError branch "
                    "is exercised in C03); symbolic pattern strings (their parser is decided in C16)",
